@@ -40,11 +40,13 @@ pub struct Transport {
     pub payload_len: Mutex<std::collections::BTreeMap<usize, usize>>,
     /// IPC message boundaries of the last fault-free payload per shard
     pub payloads: Mutex<std::collections::BTreeMap<usize, Vec<u8>>>,
+    /// fault-free answers by serialized request
+    pub answers: Mutex<std::collections::HashMap<String, (Vec<u8>, usize)>>,
 }
 
 impl Transport {
     pub fn new(peer: Arc<ExecutionContext>) -> Self {
-        Transport { peer, wrong_peer: None, faults: Mutex::new(Default::default()), sent: AtomicU64::new(0), payload_len: Mutex::new(Default::default()), payloads: Mutex::new(Default::default()) }
+        Transport { peer, wrong_peer: None, faults: Mutex::new(Default::default()), sent: AtomicU64::new(0), payload_len: Mutex::new(Default::default()), payloads: Mutex::new(Default::default()), answers: Mutex::new(Default::default()) }
     }
 }
 
@@ -62,11 +64,22 @@ impl FragmentTransport for Transport {
             Fault::HttpErr => return Err(QueryError::Execution(format!("HTTP 500 from {}: internal error", address))),
             _ => {}
         }
-        let (r, _) = execute_fragment(&peer, req).await?;
-        let mut bytes = encode_ipc(&r.schema, &r.batches)?;
+        // A payload-level fault only changes the bytes the peer's (deterministic)
+        // answer is delivered as: reuse the fault-free answer to the identical
+        // request instead of executing the fragment again.
+        let key = serde_json::to_string(req).unwrap_or_default();
+        let cached = if matches!(fault, Fault::Truncate(_) | Fault::FlipByte(_) | Fault::Empty) { self.answers.lock().unwrap().get(&key).cloned() } else { None };
+        let (mut bytes, row_count) = match cached {
+            Some(c) => c,
+            None => {
+                let (r, _) = execute_fragment(&peer, req).await?;
+                (encode_ipc(&r.schema, &r.batches)?, r.row_count)
+            }
+        };
         self.payload_len.lock().unwrap().insert(req.shard_index, bytes.len());
         if fault == Fault::None {
             self.payloads.lock().unwrap().insert(req.shard_index, bytes.clone());
+            self.answers.lock().unwrap().insert(key, (bytes.clone(), row_count));
         }
         match fault {
             Fault::Truncate(n) => bytes.truncate(n.min(bytes.len())),
@@ -79,7 +92,7 @@ impl FragmentTransport for Transport {
             }
             _ => {}
         }
-        Ok((bytes, r.row_count, 0.0))
+        Ok((bytes, row_count, 0.0))
     }
 }
 
@@ -295,10 +308,10 @@ pub fn run_c10(tier: Tier, seed: u64) -> i32 {
                 let len = payload.len();
                 let offs: Vec<usize> = if len <= 4096 && !quick {
                     (0..len).collect()
-                } else if len <= 600 {
+                } else if len <= tier.pick(240, 600) {
                     (0..len).collect()
                 } else {
-                    let mut v: Vec<usize> = (0..tier.pick(48, 256)).map(|_| qrng.usize(len)).collect();
+                    let mut v: Vec<usize> = (0..tier.pick(32, 256)).map(|_| qrng.usize(len)).collect();
                     // every IPC message boundary of the real payload
                     v.extend(ipc_boundaries(payload));
                     v.extend(len.saturating_sub(64)..len);
